@@ -113,7 +113,8 @@ def sig_from_spec(spec):
             ms = ModelSignature(model_name=m['name'], table_name=m['table'], pk_column=pkcol,
                                 unique_together=[tuple(t) for t in m.get('unique_together', [])],
                                 index_together=[tuple(t) for t in m.get('index_together', [])],
-                                unique_together_applied=bool(m.get('ut_applied', True)))
+                                unique_together_applied=bool(m.get('ut_applied', True)),
+                                db_table_comment=m.get('comment'))
             for f in m['fields']:
                 ms.add_field_sig(FieldSignature(field_name=f['name'], field_type=ftype_cls(f['type']),
                                                 field_attrs=dict(f['attrs']), related_model=f.get('related')))
